@@ -376,15 +376,19 @@ NewSlot == V /\ last.def /\ K # last.key   \* a slot has just begun; last descri
 (* statements are asserted for period >= 2; OneMsPeriod states what happens for period = 1.       *)
 Regular == cfg.kind = "xpoa" \/ cfg.period >= 2
 
-Accepted == {v \in Cands(cfg) : Class(cfg, v, now) = "ok"}
+(* the candidates accepted at an instant, {v \in Cands(c) : Class(c, v, ts) = "ok"} (TDPoS: with the owner evaluated once) *)
+AcceptedAt(c, ts) == IF c.kind = "tdpos" THEN UNION {{v \in Cands(c) : v = o} : o \in {TdposOwner(c, ts, FALSE)}}
+                     ELSE {v \in Cands(c) : XpoaClass(c, v, ts, FALSE) = "ok"}
+Accepted == AcceptedAt(cfg, now)
 (* at most one producer is entitled at any instant, it is a member of the validator set in force  *)
 (* for the candidate block, and it is the one the slot names in that set                          *)
 OneProducer == (Timed(cfg) /\ ~Silent(cfg, now)) =>
-  /\ Cardinality(Accepted) <= 1
-  /\ Accepted \subseteq Members(VS(cfg, now))
-  /\ (Accepted # {}) <=> V
-  /\ V => Accepted = {VS(cfg, now)[S.pos + 1]}
-  /\ \A v \in Cands(cfg) : Class(cfg, v, now) \in {"ok", "rej"}
+  \A acc \in {Accepted}, vs \in {VS(cfg, now)} :
+    /\ Cardinality(acc) <= 1
+    /\ acc \subseteq Members(vs)
+    /\ (acc # {}) <=> V
+    /\ V => acc = {vs[S.pos + 1]}
+    /\ \A v \in Cands(cfg) \ acc : Class(cfg, v, now) = "rej"
 (* a validator set in force is a duplicate-free sequence over the universe; TDPoS: of proposer_num  *)
 (* members; XPoA: empty only if the block whose snapshot is needed is not on the chain             *)
 SetInForce == Timed(cfg) =>
@@ -438,7 +442,7 @@ TermPeriodic == (Timed(cfg) /\ now >= Origin(cfg) /\ NV(cfg) > 0) =>
 (* block_num slots - those of its position in the set - and nobody else owns any                   *)
 WalkMs == (StartNs(cfg) \div Ms + 2)..(EndNs(cfg) \div Ms)
 (* one row per millisecond at which somebody is scheduled: the slot, the set in force, who is accepted *)
-SlotTab == {[key |-> Key(Sched(cfg, m * Ms)), vs |-> VS(cfg, m * Ms), acc |-> {v \in Cands(cfg) : Class(cfg, v, m * Ms) = "ok"}] :
+SlotTab == {[key |-> Key(Sched(cfg, m * Ms)), vs |-> VS(cfg, m * Ms), acc |-> AcceptedAt(cfg, m * Ms)] :
               m \in {x \in WalkMs : x * Ms >= Origin(cfg) /\ ~Silent(cfg, x * Ms) /\ Valid(cfg, Sched(cfg, x * Ms))}}
 Shares == (Timed(cfg) /\ now = StartNs(cfg) /\ NV(cfg) > 0) =>
   \A tab \in {SlotTab} :
